@@ -1,6 +1,6 @@
 (* C03 lemmas, part 3: when the construction succeeds the instance has no missing value anywhere. *)
 From Coq Require Import List String Bool Arith Lia.
-From PAFC01 Require Import ModelTree.
+From PAFC01 Require Import ModelTree Proofs8.
 From PAFC03 Require Import Model Proofs Proofs2.
 Import ListNotations.
 Local Open Scope string_scope.
@@ -9,12 +9,13 @@ Local Open Scope list_scope.
 Section P4.
   Variable V : Type.
   Variable bin : binop -> V -> V -> V.
+  Variable un : unop -> V -> V.
   Variable bin_ok : binop -> V -> V -> bool.
   Variable ltb leb : V -> V -> bool.
   Variable of_bool : bool -> V.
   Variable args : nat -> option V.
-  Notation status := (status V bin bin_ok ltb leb of_bool args).
-  Notation inst := (inst V bin args).
+  Notation status := (status V bin un bin_ok ltb leb of_bool args).
+  Notation inst := (inst V bin un args).
 
   Fixpoint no_missing (i : ival V) : bool :=
     match i with
@@ -32,6 +33,7 @@ Section P4.
     | NPrior _ | NConst _ => true
     | NTuple ms => forallb (fun m => simple_member (snd (snd m))) ms
     | NBin _ _ _ l r => covered l && covered r
+    | NUn _ _ c => covered c
     | NModel _ _ attrs => forallb (fun kc => covered (snd kc)) attrs
     | NColl attrs => forallb (fun kc => negb (is_tuple V (snd kc)) && covered (snd kc)) attrs
     end.
@@ -73,13 +75,18 @@ Section P4.
   Theorem constructed_no_missing (n : node V) : forall lv,
     covered n = true -> status true lv n = Ok tt -> no_missing (inst n) = true.
   Proof.
-    induction n as [q|c|ms|o ln rn l r IHl IHr|cls ctor attrs IH|attrs IH] using (level_ind V); intros lv C S.
+    induction n as [q|c|ms|o ln rn l r IHl IHr|uo unm uc IHc|cls ctor attrs IH|attrs IH] using (level_ind V); intros lv C S.
     - cbn [Model.status] in S. unfold prior_status in S. cbn [ModelTree.inst]. destruct (args q); [reflexivity|discriminate S].
     - reflexivity.
     - exact (tuple_no_missing ms C S).
     - cbn [Model.status] in S. apply seq_ok' in S. destruct S as [_ S]. apply seq_ok' in S. destruct S as [_ S].
       apply seq_ok' in S. destruct S as [_ S]. unfold arith_status in S. cbn [ModelTree.inst].
       destruct (inst l); try discriminate S. destruct (inst r); try discriminate S. reflexivity.
+    - cbn [Model.status] in S. apply seq_ok' in S. destruct S as [_ S]. apply seq_ok' in S. destruct S as [_ S].
+      unfold un_status in S.
+      assert (Hc : is_const V uc = false) by (destruct uc; try reflexivity; discriminate S).
+      rewrite (inst_un V bin un args uo unm uc Hc).
+      destruct uc; try discriminate Hc; (destruct (ModelTree.inst V bin un args _); try discriminate S; reflexivity).
     - cbn [Model.status] in S. apply seq_ok' in S. destruct S as [_ S]. apply seq_ok' in S. destruct S as [S1 S].
       apply seq_ok' in S. destruct S as [S2 S3]. cbn [covered] in C.
       assert (K : forall k c, In (k, c) attrs -> no_missing (inst c) = true).
@@ -95,6 +102,7 @@ Section P4.
             unfold prior_status in Sq. cbn [ModelTree.inst]. destruct (args pid); [reflexivity|discriminate Sq].
           - repeat split; auto.
           - apply seq_ok' in S1. destruct S1 as [St S1]. repeat split; auto. exact (tuple_no_missing members Cc St).
+          - apply seq_ok' in S2. destruct S2 as [Sc S2]. repeat split; auto. exact (Hc _ Cc Sc).
           - apply seq_ok' in S2. destruct S2 as [Sc S2]. repeat split; auto. exact (Hc _ Cc Sc).
           - apply seq_ok' in S2. destruct S2 as [Sc S2]. repeat split; auto. exact (Hc _ Cc Sc).
           - apply seq_ok' in S2. destruct S2 as [Sc S2]. repeat split; auto. exact (Hc _ Cc Sc). }
@@ -129,17 +137,19 @@ End P4.
 Section Names.
   Variable V : Type.
   Variable bin : binop -> V -> V -> V.
+  Variable un : unop -> V -> V.
   Variable bin_ok : binop -> V -> V -> bool.
   Variable ltb leb : V -> V -> bool.
   Variable of_bool : bool -> V.
   Variable args : nat -> option V.
-  Notation operand := (operand V bin bin_ok args).
-  Notation holds := (holds V bin bin_ok ltb leb of_bool args).
+  Notation operand := (operand V bin un bin_ok args).
+  Notation holds := (holds V bin un bin_ok ltb leb of_bool args).
 
   (* forget every operand name inside an operand expression *)
   Fixpoint erase (n : node V) : node V :=
     match n with
     | NBin o _ _ l r => NBin o "" "" (erase l) (erase r)
+    | NUn o _ c => NUn o "" (erase c)
     | _ => n
     end.
 
@@ -155,8 +165,9 @@ Section Names.
 
   Lemma operand_erase (n : node V) : operand (erase n) = operand n.
   Proof.
-    induction n as [q|c|ms|o ln rn l r IHl IHr|cls ctor attrs _|attrs _] using (level_ind V); try reflexivity.
-    cbn [erase Model.operand]. rewrite IHl, IHr. reflexivity.
+    induction n as [q|c|ms|o ln rn l r IHl IHr|uo unm uc IHc|cls ctor attrs _|attrs _] using (level_ind V); try reflexivity.
+    - cbn [erase Model.operand]. rewrite IHl, IHr. reflexivity.
+    - cbn [erase Model.operand]. rewrite IHc. destruct uc; reflexivity.
   Qed.
 
   Lemma erase_a_lit (a : assertion V) : is_lit V (erase_a a) = is_lit V a.
